@@ -292,10 +292,13 @@ fn c04_typecompat_complete_d4() {
 // depth <= 3 in three slices of rows (run in parallel by the runner)
 macro_rules! rows_harness {
     ($name:ident, $from:expr, $to:expr, $c03:expr) => {
+        rows_harness!($name, $from, $to, $c03, 11, 3, 13);
+    };
+    ($name:ident, $from:expr, $to:expr, $c03:expr, $ncodes:expr, $maxw:expr, $unw:expr) => {
         #[kani::proof]
-        #[kani::unwind(13)]
+        #[kani::unwind($unw)]
         fn $name() {
-            check_rows($from, $to, 11, 3, $c03);
+            check_rows($from, $to, $ncodes, $maxw, $c03);
         }
     };
 }
@@ -305,3 +308,15 @@ rows_harness!(c03_typecompat_sound_d3_r2, 8, 11, true);
 rows_harness!(c04_typecompat_complete_d3_r0, 0, 4, false);
 rows_harness!(c04_typecompat_complete_d3_r1, 4, 8, false);
 rows_harness!(c04_typecompat_complete_d3_r2, 8, 11, false);
+
+// depth <= 4 (19 x 19 nestings) in five row slices: thorough tier
+rows_harness!(c03_typecompat_sound_d4_r0, 0, 4, true, 19, 4, 21);
+rows_harness!(c03_typecompat_sound_d4_r1, 4, 8, true, 19, 4, 21);
+rows_harness!(c03_typecompat_sound_d4_r2, 8, 12, true, 19, 4, 21);
+rows_harness!(c03_typecompat_sound_d4_r3, 12, 16, true, 19, 4, 21);
+rows_harness!(c03_typecompat_sound_d4_r4, 16, 19, true, 19, 4, 21);
+rows_harness!(c04_typecompat_complete_d4_r0, 0, 4, false, 19, 4, 21);
+rows_harness!(c04_typecompat_complete_d4_r1, 4, 8, false, 19, 4, 21);
+rows_harness!(c04_typecompat_complete_d4_r2, 8, 12, false, 19, 4, 21);
+rows_harness!(c04_typecompat_complete_d4_r3, 12, 16, false, 19, 4, 21);
+rows_harness!(c04_typecompat_complete_d4_r4, 16, 19, false, 19, 4, 21);
